@@ -310,7 +310,10 @@ class pmodcovar(ParametricSpectrum):
         from spectrum import arma2psd
         ar, e = modcovar(self.data, self.ar_order)
         self.ar = ar
-        psd = arma2psd(A=ar, T=self.sampling, NFFT=self.NFFT)
+        # white noise variance: the forward+backward prediction error energy
+        # per sample
+        self.rho = e / float(2 * (self.N - self.ar_order))
+        psd = arma2psd(A=ar, rho=self.rho, T=self.sampling, NFFT=self.NFFT)
 
         if self.datatype == 'real':
             if self.NFFT % 2 == 0:
